@@ -19,8 +19,11 @@
    Adversary: the fault set of the run (reads and stamp writes that fail), and two oracles for what the code leaves
    to the scheduler -- which of the failing document's other keys were stamped before the failure (Go map order),
    and where the feed of a RESUMED mark phase starts: the feed client advances its checkpoint past every event it
-   delivered, whatever the callback returned, so it starts behind the failed document ([fixed = false], the code as
-   it is: resume point = max skip (failed + 1)); the repaired behaviour [fixed = true] never passes it. *)
+   delivered, whatever the callback returned, and writes it when it stops -- which may be after the failed run has
+   already reported its error (the mark phase does not wait for the feed once it has failed).  So a resumed feed
+   starts behind the failed document (and behind whatever else was delivered before the feed closed), or, when
+   the checkpoint was not written yet, from the beginning: [fixed = false], the code as it is, resume point = ANY
+   position; the repaired behaviour [fixed = true] never passes the failed document. *)
 From SG Require Import Base.Prelude.
 Open Scope N_scope.
 
@@ -124,7 +127,7 @@ Record cp_result := CpRes { cp_rstatus : cp_status; cp_rmarked : N; cp_rpurged :
 Definition cp_mode (fixed : bool) (s : cp_store) (r : cp_runin) : N * nat * bool :=
   match cp_reset r, cp_pending s with
   | false, Some p =>
-      (cp_pid p, (if fixed then Nat.min (cp_skip r) (cp_pat p) else Nat.max (cp_skip r) (S (cp_pat p))), cp_pdry p)
+      (cp_pid p, (if fixed then Nat.min (cp_skip r) (cp_pat p) else cp_skip r), cp_pdry p)
   | _, _ => (cp_rid r, 0%nat, cp_dry r)
   end.
 
